@@ -54,6 +54,7 @@ type SceneOpts struct {
 	UserFunds    string
 	EdenPerYear  string // masterchef LP incentive (0 = none)
 	BurnEpoch    string // burner epoch identifier ("" = the default, which matches no epoch)
+	Registry     bool   // project the parameter registry (extended specification) at every observation point
 }
 
 func DefaultScene() SceneOpts {
@@ -71,6 +72,7 @@ func (c *Chain) mint(ctx sdk.Context, addr sdk.AccAddress, coins sdk.Coins) {
 
 func (c *Chain) SetupScene(o SceneOpts) {
 	c.initNames()
+	c.Registry = o.Registry
 	rec := c.Rec
 	c.Rec = nil
 	defer func() { c.Rec = rec }()
